@@ -700,8 +700,12 @@ func TestC11(t *testing.T) {
 						} else if _, e := peer.IDFromPrivateKey(r.priv); e != nil {
 							uerr = e
 						}
-						if _, e := r.priv.Sign(msg); e != nil {
+						if sig, e := r.priv.Sign(msg); e != nil {
 							uerr = e
+						} else if !nilIface(pk) {
+							if _, e := pk.Verify(msg, sig); e != nil {
+								uerr = e
+							}
 						}
 					}
 					if !nilIface(r.pub) {
@@ -715,6 +719,10 @@ func TestC11(t *testing.T) {
 							uerr = e
 						}
 						if _, e := crypto.MarshalPublicKey(r.pub); e != nil {
+							uerr = e
+						}
+						// verifying must work (the verdict itself is not judged here)
+						if _, e := r.pub.Verify(msg, make([]byte, ed25519.SignatureSize)); e != nil {
 							uerr = e
 						}
 					}
